@@ -312,4 +312,5 @@ func runC02(r *an.Run) {
 
 	codecC02(r)
 	windowDiscipline(r)
+	statusWriters(r)
 }
